@@ -134,6 +134,11 @@ def generate(ctx):
         strings.append(form.format(s=s, k=k, v=v, v2=v2))
     for _ in range(ctx.budget(60, 600)):
         strings.append("".join(rng.choice(PALETTE + list("swh:1cntdirev")) for _ in range(rng.randrange(0, 60))))
+    # every key x {no '=', empty value, empty value among good qualifiers}, systematically
+    base = "swh:1:cnt:" + "0" * 40
+    for k in sc.KEYS + ["foo", ""]:
+        for form in ("{b};{k}", "{b};{k}=", "{b};{k}=;lines=3", "{b};lines=3;{k}=", "{b};origin=x;{k}", "{b};{k};lines=3", "{b};{k}==", "{b};{k}=;{k}="):
+            strings.append(form.format(b=base, k=k))
     strings += ["", "swh", "swh:1:cnt:", "swh:2:cnt:" + "0" * 40, "SWH:1:cnt:" + "0" * 40, "swh:1:cnt:" + "0" * 40 + "\n", " swh:1:cnt:" + "0" * 40,
                 "swh:1:cnt:" + "0" * 40 + ";origin=a%20b", "swh:1:cnt:" + "0" * 40 + ";origin=a%E2%80%A8b", "swh:1:cnt:" + "0" * 40 + ";lines=+5",
                 "swh:1:cnt:" + "0" * 40 + ";lines=" + "1" * 4301, "swh:1:cnt:" + "0" * 40 + ";lines=" + "0" * 4301]
